@@ -1131,6 +1131,10 @@ def r_hoist_throws(ctx, toks):
                     es = k + 1; break
         head, expr = seg[:es], seg[es:]
         tail = []
+        pre_head = []
+        if head and head[0].t != 'return' and has_may(head):
+            # may-throw call on the left-hand side (e.g. a[i] = ...): evaluated into a temporary first
+            pre_head, head, _ = hoist_plain(head, False)
         if needs_lower(expr):
             pre, r = lower_bool(expr)
             newseg = head + r
@@ -1139,6 +1143,9 @@ def r_hoist_throws(ctx, toks):
             newseg = head + r
             if top and not (head and head[0].t == 'return'):
                 tail = tokenize(CHECK); fire(ctx, 'maythrow-check')
+        if pre and prev not in (';', '{', '}', ':'):
+            raise ExtractError('may-throw call in an unbraced nested statement: %r' % render(out[a:b])[:80])
+        pre = pre_head + pre
         if pre and prev not in (';', '{', '}', ':'):
             raise ExtractError('may-throw call in an unbraced nested statement: %r' % render(out[a:b])[:80])
         out[b + 1:b + 1] = tail
